@@ -96,6 +96,10 @@ package http
 //@   rely bh.latestRound, bh.pending
 //@   monitor bh.pendingLk: invariant [C01:requests-wait-only-while-the-next-round-is-known] len(bh.pending) == 0 || bh.latestRound != 0
 //@   requires h.log != nil && info != nil && common.validPeriod(info.Period) && common.validGenesis(info.GenesisTime)
+// C14: the watch loop hands the next round to every waiter while it holds the pending lock, one send per waiter, then
+// drops the list: that send must never wait (a waiter that is leaving needs the same lock), so every channel that joins
+// the list has a free buffer slot
+//@   call append#0: assert [C14:a-waiter-channel-has-a-buffer-slot-so-the-hand-over-under-the-lock-never-waits] cap(ch) >= 1
 //@   call append#0: assert [C01:a-request-joins-the-waiters-only-for-the-round-delivered-next] held(bh.pendingLk) && bh.latestRound != 0 && (bh.latestRound + 1 == round || (bh.latestRound == 18446744073709551615 && round == 0))
 
 // ---- C19 (HTTP): the chain hash of a path is the decoding of exactly the path segment; a malformed one is refused -------
